@@ -9,7 +9,7 @@ PROP = {'tables': ['C14', 'C15', 'C16', 'C17'], 'n_quick': 70,
          'prefix, swap) plus length-field mutations that replace a byte by a large minimal varint (MAX_VEC_SIZE and its neighbours, 2^31, 2^32, 2^64-1, '
          '10 000/10 001), random bytes/strings, and fixed boundary inputs (allocation probes: a length prefix with nothing behind it in every '
          'position a vector can start; control-block sizes 33+32k around 0/128/129 nodes; 63/64/65/66-byte signatures; depth sequences with 0, 128, '
-         '129, 255; every read_uint size 0..17; all 1-byte and (thorough: all 65 536) 2-byte scripts). Every case runs in a debug (overflow checks on) and a '
+         '129, 255; every read_uint size 0..17; the small fallible integer constructors (Sequence::from_seconds_floor/ceil, LockTime/Height/Time constructors, sighash-type and leaf-version conversions, Ordinary::try_from_all) on 0, 1, 2^k+-1, the thresholds 500 000 000 and 65535/65536 x 512 with their neighbours, every u32::MAX-k for k <= 600, all 256 bytes for the u8 ones, each compared with an independent u128 computation; base58check strings of every payload of 0..3 and 20..22/53..55 bytes; slice/string constructors on boundary lengths; all 1-byte and (thorough: all 65 536) 2-byte scripts). Every case runs in a debug (overflow checks on) and a '
          'release binary under a panic hook (location of every panic, also swallowed ones) and a counting global allocator; PSET/text parsing that can '
          'crash the process runs in a forked worker. distinct = distinct case text; non-trivial = not a verbatim repository vector (for builder/locktime: '
          'at least one / two items)',
